@@ -44,8 +44,8 @@ type wresult struct {
 	Lost      []string       `json:"lost"`      // clients whose version acknowledged BEFORE Close was invoked is not recovered
 	LateLost  []string       `json:"late_lost"` // clients whose call was acknowledged after Close was invoked and is not recovered (C13: calls after Close must fail)
 	AckedPre  map[string]int `json:"acked_before_close"`
-	Forced    int            `json:"forced"`  // controllable steps actually forced
-	Skipped   int            `json:"skipped"` // steps that could not be forced (procedure had already ended)
+	Forced    int            `json:"forced"`    // controllable steps actually forced
+	Skipped   int            `json:"skipped"`   // steps that could not be forced (procedure had already ended)
 	Refused   int            `json:"refused"`   // probe: forbidden steps the implementation refused to take (it waited, as specified)
 	Proceeded int            `json:"proceeded"` // probe: forbidden steps the implementation DID take
 	Note      string         `json:"note,omitempty"`
